@@ -128,13 +128,29 @@ def buftype(draw, n, prim):
         a = draw(st.sampled_from(divs))
         b = n // a
         pad0, pad1 = draw(st.integers(0, 2)), draw(st.integers(0, 2))
-        return ("sub", [a, b + pad0 + pad1], [a, b], [0, pad0], P), 1
+        var = draw(st.sampled_from(["last", "first", "both", "1d", "3d", "bc"]))
+        if var == "last":        # ghost cells along the fastest dimension
+            return ("sub", [a, b + pad0 + pad1], [a, b], [0, pad0], P), 1
+        if var == "first":       # ghost rows along the slowest dimension only: one contiguous run that does not start at the buffer address
+            return ("sub", [a + pad0 + pad1, b], [a, b], [pad0, 0], P), 1
+        if var == "both":
+            q0, q1 = draw(st.integers(0, 2)), draw(st.integers(0, 2))
+            return ("sub", [a + pad0 + pad1, b + q0 + q1], [a, b], [pad0, q0], P), 1
+        if var == "1d":
+            return ("sub", [n + pad0 + pad1], [n], [pad0], P), 1
+        if var == "3d":
+            return ("sub", [a + pad0, 1 + pad1, b], [a, 1, b], [pad0, pad1, 0], P), 1
+        # several instances of a subarray type (extent = the whole array)
+        return ("sub", [b + pad0 + pad1], [b], [pad0], P), a
     if kind == "rsz":
         return ("rsz", 0, (n + draw(st.integers(0, 3))) * esz, ("ctg", n, P)), 1
     if kind == "bc":
         bc = draw(st.sampled_from(divs))
         per = n // bc
-        inner = draw(st.sampled_from(["ctg", "vec", "rsz"]))
+        inner = draw(st.sampled_from(["ctg", "vec", "rsz", "sub"]))
+        if inner == "sub":
+            p0, p1 = draw(st.integers(0, 2)), draw(st.integers(0, 2))
+            return ("sub", [per + p0 + p1], [per], [p0], P), bc
         if inner == "ctg":
             return ("ctg", per, P), bc
         if inner == "vec":
